@@ -22,7 +22,7 @@ Lemma installed_table : forall r,
                 | RFunc => IPair FPlain | RClassmethod => IPair FCM | RStaticmethod => IPair FSM
                 | RAsynqFn => IAsynq
                 | RBound | RSlotsObj => IWrapper
-                | RCallableObj | RNcObj => IObj
+                | RCallableObj | RNcObj | RMockObj | RClassObj => IObj
                 | RNonCallable | RNcNonCallable => IPlain
                 | RNcSlots => ISlots RefAttr
                 | RNcFrozen | RNcType => ISlots RefType
@@ -208,8 +208,10 @@ Section Restore.
     (st' = st /\ r <> RDone)
     \/ (r = RDone /\ exists sp sv,
           specs w p = Some sp /\
-          st' = mkst (upd (own st) (ptarget sp) (Some (new_obj p (prk sp) (gen st p))))
-                     (upd (saved st) p (Some sv)) (active st) (upd (gen st) p (gen st p + 1)) /\
+          st' = mkst (upd (own st) (ptarget sp) (Some (new_obj p sp (gen st p))))
+                     (upd (saved st) p (Some sv)) (active st) (upd (gen st) p (gen st p + 1))
+                     (if inst_callable (installed (prk sp))
+                      then set_attached (attached st) (new_obj p sp (gen st p)) else attached st) /\
           forall o, forall t, undo sp sv (upd (own st) (ptarget sp) (Some o)) t = own st t).
   Proof.
     intros st p st' r H. unfold enter in H.
@@ -231,14 +233,14 @@ Section Restore.
   Qed.
 
   (* invariant after a successful enter of p (not open), whether or not start() registers it *)
-  Lemma inv_push : forall base stk st p s sp sv o gn,
+  Lemma inv_push : forall base stk st p s sp sv o gn at_,
     Inv base stk st -> ~ In p (map fst stk) -> specs w p = Some sp ->
     (forall t, undo sp sv (upd (own st) (ptarget sp) (Some o)) t = own st t) ->
     Inv base ((p, s) :: stk)
         (mkst (upd (own st) (ptarget sp) (Some o)) (upd (saved st) p (Some sv))
-              (if s then active st ++ [p] else active st) gn).
+              (if s then active st ++ [p] else active st) gn at_).
   Proof.
-    intros base stk st p s sp sv o gn [I1 I2 I3 I4 I5] Hn Hs Hu. constructor; cbn.
+    intros base stk st p s sp sv o gn at_ [I1 I2 I3 I4 I5] Hn Hs Hu. constructor; cbn.
     - intros t. rewrite Hs, upd_same. rewrite unwind_upd_notin by assumption.
       rewrite (unwind_ext _ _ _ (own st)) by assumption. apply I1.
     - constructor; assumption.
@@ -268,7 +270,7 @@ Section Restore.
   (* closing the innermost entry, given that _active_patches has already been adjusted to `l` *)
   Lemma inv_pop : forall base stk st p s l,
     Inv base ((p, s) :: stk) st -> l = act (saved st) stk ->
-    Inv base stk (fst (exit w (mkst (own st) (saved st) l (gen st)) p)).
+    Inv base stk (fst (exit w (mkst (own st) (saved st) l (gen st) (attached st)) p)).
   Proof.
     intros base stk st p s l [I1 I2 I3 I4 I5] Hl. cbn in *.
     inversion I2 as [|? ? Hn Hnd]; subst.
@@ -315,19 +317,19 @@ Section Restore.
     Inv base ((p, false) :: stk) st -> Inv base stk (fst (exit w st p)).
   Proof.
     intros base stk st p HI. pose proof HI as [I1 I2 I3 I4 I5]. cbn in I4.
-    destruct st as [o sv a g]; cbn in *.
-    apply (inv_pop base stk (mkst o sv a g) p false a HI). exact I4.
+    destruct st as [o sv a g at_]; cbn in *.
+    apply (inv_pop base stk (mkst o sv a g at_) p false a HI). exact I4.
   Qed.
 
   Lemma stop_live : forall base stk st p sp sv,
     Inv base ((p, true) :: stk) st -> specs w p = Some sp -> saved st p = Some sv ->
-    stop w st p = (mkst (undo sp sv (own st)) (upd (saved st) p None) (act (saved st) stk) (gen st), RDone)
-    /\ Inv base stk (mkst (undo sp sv (own st)) (upd (saved st) p None) (act (saved st) stk) (gen st)).
+    stop w st p = (mkst (undo sp sv (own st)) (upd (saved st) p None) (act (saved st) stk) (gen st) (attached st), RDone)
+    /\ Inv base stk (mkst (undo sp sv (own st)) (upd (saved st) p None) (act (saved st) stk) (gen st) (attached st)).
   Proof.
     intros base stk st p sp sv HI Hs Hv. pose proof HI as [I1 I2 I3 I4 I5]. cbn in I4.
     inversion I2 as [|? ? Hn Hnd]; subst.
     rewrite Hs, Hv in I4; cbn in I4.
-    assert (Hstop : stop w st p = (mkst (undo sp sv (own st)) (upd (saved st) p None) (act (saved st) stk) (gen st), RDone)).
+    assert (Hstop : stop w st p = (mkst (undo sp sv (own st)) (upd (saved st) p None) (act (saved st) stk) (gen st) (attached st), RDone)).
     { unfold stop. rewrite I4, remove1_last by (intro H; apply act_in in H; contradiction).
       unfold exit; cbn. rewrite Hs, Hv. destruct sv as [orig local]. reflexivity. }
     split; [exact Hstop|].
@@ -485,7 +487,7 @@ Section Restore.
   (* after a successful enter of p, own (target p) = ONew p *)
   Lemma enter_installs : forall st p st' sp,
     enter w st p = (st', RDone) -> specs w p = Some sp ->
-    own st' (ptarget sp) = Some (new_obj p (prk sp) (gen st p)) /\ gen st' p = gen st p + 1.
+    own st' (ptarget sp) = Some (new_obj p sp (gen st p)) /\ gen st' p = gen st p + 1.
   Proof.
     intros st p st' sp He Hs.
     destruct (enter_cases st p st' RDone He) as [[_ H]|[_ [sp' [sv [Hs' [-> _]]]]]]; [congruence|].
@@ -585,12 +587,24 @@ Section Restore.
     rewrite E1, E2. unfold new_obj. rewrite Hp. reflexivity.
   Qed.
 
-  (* every convention of a probe reaches the object that is in place NOW (never the object of an
-     earlier activation), or none is callable *)
+  (* every convention of a probe runs the code of the object that is in place NOW (never the
+     object of an earlier activation): the object itself, or the shared object its per-patcher
+     wrapper delegates to; or none is callable; or the wrappers are missing *)
+  Lemma probe_conv_cases : forall i att acc who b c args,
+    probe_conv i att acc who b c args = CNotCallable \/ probe_conv i att acc who b c args = CDetached
+    \/ exists recv, probe_conv i att acc who b c args = CReached who recv b.
+  Proof.
+    intros i att acc who b c args. unfold probe_conv.
+    destruct att; [|destruct (inst_unattached i) as [i'|]; [|destruct c; auto]];
+      match goal with |- context [dispatch Z SELF CLS ?j acc ?cv args] =>
+        destruct (dispatch Z SELF CLS j acc cv args) as [r|] end; eauto.
+  Qed.
+
   Lemma probe_reaches_current : forall st t args cur cs,
     probe w st t args = RProbe cur cs ->
     cur = current w st t /\
-    forall c, In c cs -> c = CNotCallable \/ exists o recv b, cur = Some o /\ c = CReached o recv b.
+    forall c, In c cs -> c = CNotCallable \/ c = CDetached
+                         \/ exists o recv b, cur = Some o /\ c = CReached (body_of w o) recv b.
   Proof.
     intros st t args cur cs H. unfold probe in H.
     destruct (current w st t) as [o|]; [|inversion H; subst; split; [reflexivity|intros c []]].
@@ -599,9 +613,147 @@ Section Restore.
     injection H as <- <-. split; [reflexivity|].
     intros c Hc. cbn [map all_convs In] in Hc.
     destruct Hc as [<-|[<-|[<-|[<-|[]]]]];
-      match goal with |- context [dispatch Z SELF CLS i ?a ?cv args] =>
-        destruct (dispatch Z SELF CLS i a cv args) as [r|] end;
-      solve [right; exists o, r, b; auto | left; reflexivity].
+      match goal with |- context [probe_conv ?i ?a ?ac ?wh ?b ?cv ?ar] =>
+        destruct (probe_conv_cases i a ac wh b cv ar) as [E|[E|[r E]]]; rewrite E end; auto;
+      right; right; exists o, r, b; auto.
+  Qed.
+
+  (* ---------------------------------------------------------------- the attached wrappers *)
+  (* nothing ever takes .asynq/.async/.asyncio off an object again: for ANY op list (malformed
+     ones included) an object that carries the wrappers keeps them *)
+  Lemma set_attached_mono : forall f o x, f x = true -> set_attached f o x = true.
+  Proof. intros f o x H. unfold set_attached. destruct (obj_eqb x o); auto. Qed.
+
+  Lemma obj_eqb_refl : forall o, obj_eqb o o = true.
+  Proof. destruct o; cbn; rewrite ?Z.eqb_refl; reflexivity. Qed.
+
+  Lemma set_attached_same : forall f o, set_attached f o o = true.
+  Proof. intros. unfold set_attached. rewrite obj_eqb_refl. reflexivity. Qed.
+
+  Lemma enter_att : forall st p o, attached st o = true -> attached (fst (enter w st p)) o = true.
+  Proof.
+    intros st p o H. destruct (enter w st p) as [st' r] eqn:He.
+    destruct (enter_cases st p st' r He) as [[-> _]|[_ [sp [sv [_ [-> _]]]]]]; cbn; auto.
+    destruct (inst_callable (installed (prk sp))); auto. apply set_attached_mono. exact H.
+  Qed.
+
+  Lemma exit_att : forall st p, attached (fst (exit w st p)) = attached st.
+  Proof.
+    intros st p. unfold exit. destruct (specs w p); [|reflexivity].
+    destruct (saved st p) as [[orig local]|]; reflexivity.
+  Qed.
+
+  Lemma stop_att : forall st p, attached (fst (stop w st p)) = attached st.
+  Proof.
+    intros st p. unfold stop. destruct (remove1 p (active st)); [|reflexivity].
+    rewrite exit_att. reflexivity.
+  Qed.
+
+  Lemma stopall_loop_att : forall k st, attached (fst (stopall_loop w k st)) = attached st.
+  Proof.
+    induction k as [|i IH]; intros st; cbn; [reflexivity|].
+    destruct (nth_error (active st) i) as [p|]; [|reflexivity].
+    pose proof (stop_att st p) as H. destruct (stop w st p) as [st' [|e]]; cbn in H.
+    - rewrite IH. exact H.
+    - exact H.
+  Qed.
+
+  Lemma step_att : forall st o x, attached st x = true -> attached (fst (step w st o)) x = true.
+  Proof.
+    intros st o x Hx. destruct o as [p sty|p sty exc|p|p exc|exc|t args]; cbn [step].
+    - pose proof (enter_att st p x Hx) as H. destruct (enter w st p). exact H.
+    - pose proof (exit_att st p) as H. destruct (exit w st p). cbn in *. rewrite H. exact Hx.
+    - pose proof (enter_att st p x Hx) as H. unfold start. destruct (enter w st p) as [s1 [|e]]; exact H.
+    - pose proof (stop_att st p) as H. destruct (stop w st p). cbn in *. rewrite H. exact Hx.
+    - pose proof (stopall_loop_att (length (active st)) st) as H. unfold stopall.
+      destruct (stopall_loop w (length (active st)) st). cbn in *. rewrite H. exact Hx.
+    - exact Hx.
+  Qed.
+
+  Lemma attach_persists : forall ops st o, attached st o = true -> attached (exec w st ops) o = true.
+  Proof.
+    induction ops as [|x ops IH]; intros st o H; [exact H|].
+    rewrite exec_cons. apply IH. apply step_att. exact H.
+  Qed.
+
+  (* a successful activation with a callable replacement leaves the installed object attached *)
+  Lemma enter_attaches : forall st p st' sp,
+    enter w st p = (st', RDone) -> specs w p = Some sp -> inst_callable (installed (prk sp)) = true ->
+    attached st' (new_obj p sp (gen st p)) = true.
+  Proof.
+    intros st p st' sp He Hs Hc.
+    destruct (enter_cases st p st' RDone He) as [[_ H]|[_ [sp' [sv [Hs' [-> _]]]]]]; [congruence|].
+    assert (sp' = sp) by congruence. subst. cbn. rewrite Hc. apply set_attached_same.
+  Qed.
+
+  (* two patchers that were given the same object, installed as is: the same object in both slots *)
+  Lemma shared_same_object : forall p q sp sq g h,
+    per_activation (prk sp) = false -> given_as_is (prk sp) = true ->
+    prk sq = prk sp -> pshare sq = pshare sp ->
+    new_obj p sp g = new_obj q sq h.
+  Proof.
+    intros p q sp sq g h Hp Ha Hr Hsh. unfold new_obj. rewrite Hr, Hp, Ha, Hsh. reflexivity.
+  Qed.
+
+  (* wrapped replacements (function, bound method, attribute-refusing callable): one wrapper per
+     patcher, but the code that runs is the shared object's *)
+  Lemma shared_wrapped_distinct : forall p q sp sq g h,
+    per_activation (prk sp) = false -> given_as_is (prk sp) = false -> prk sq = prk sp -> p <> q ->
+    new_obj p sp g <> new_obj q sq h.
+  Proof.
+    intros p q sp sq g h Hp Ha Hr Hn. unfold new_obj. rewrite Hr, Hp, Ha. intro E. inversion E. contradiction.
+  Qed.
+
+  Lemma shared_body : forall p sp g,
+    specs w p = Some sp -> per_activation (prk sp) = false ->
+    (given_as_is (prk sp) = true -> exists so, specs w (pshare sp) = Some so /\ per_activation (prk so) = false
+                                               /\ pshare so = pshare sp) ->
+    body_of w (new_obj p sp g) = ONew (pshare sp) 0.
+  Proof.
+    intros p sp g Hs Hp Hown. unfold new_obj. rewrite Hp.
+    destruct (given_as_is (prk sp)) eqn:Ha; cbn.
+    - destruct (Hown eq_refl) as [so [Ho [Hpo Hsh]]]. rewrite Ho, Hpo, Hsh. reflexivity.
+    - rewrite Hs, Hp. reflexivity.
+  Qed.
+
+  (* T survivor: p was activated with a callable replacement; then ANY op list runs - other
+     patches sharing p's replacement object start and end, in any order, well-bracketed or not -;
+     whenever p's object is (still / again) what the target holds, a probe finds the wrappers in
+     place: every convention runs the code of that object (or, for a classmethod object fetched
+     from a module / instance dict, none is callable - also the synchronous one) *)
+  Lemma survivor_reached : forall st p sp st1 ops t args,
+    enter w st p = (st1, RDone) -> specs w p = Some sp -> inst_callable (installed (prk sp)) = true ->
+    obj_inst w (new_obj p sp (gen st p)) = Some (installed (prk sp), pbeh sp) ->
+    current w (exec w st1 ops) t = Some (new_obj p sp (gen st p)) ->
+    exists cs, probe w (exec w st1 ops) t args = RProbe (Some (new_obj p sp (gen st p))) cs /\
+      length cs = 4%nat /\
+      forall c, In c cs -> c = CNotCallable \/
+        exists recv, c = CReached (body_of w (new_obj p sp (gen st p))) recv (pbeh sp).
+  Proof.
+    intros st p sp st1 ops t args He Hs Hc Hi Hcur.
+    pose proof (attach_persists ops st1 _ (enter_attaches st p st1 sp He Hs Hc)) as Hat.
+    unfold probe. rewrite Hcur, Hi, Hc, Hat. eexists. split; [reflexivity|]. split; [reflexivity|].
+    intros c Hin. apply in_map_iff in Hin. destruct Hin as [cv [<- _]].
+    unfold probe_conv.
+    match goal with |- context [dispatch Z SELF CLS ?j ?ac cv args] =>
+      destruct (dispatch Z SELF CLS j ac cv args) as [r|] end; eauto.
+  Qed.
+
+  (* ... and they agree: same code, same received arguments for all four conventions *)
+  Lemma survivor_agree : forall st p sp st1 ops t args tk,
+    enter w st p = (st1, RDone) -> specs w p = Some sp -> inst_callable (installed (prk sp)) = true ->
+    obj_inst w (new_obj p sp (gen st p)) = Some (installed (prk sp), pbeh sp) ->
+    current w (exec w st1 ops) t = Some (new_obj p sp (gen st p)) ->
+    tkinds w t = tk -> compat tk (prk sp) = true ->
+    exists recv, probe w (exec w st1 ops) t args =
+      RProbe (Some (new_obj p sp (gen st p)))
+             (map (fun _ => CReached (body_of w (new_obj p sp (gen st p))) recv (pbeh sp)) all_convs).
+  Proof.
+    intros st p sp st1 ops t args tk He Hs Hc Hi Hcur Htk Hcompat.
+    pose proof (attach_persists ops st1 _ (enter_attaches st p st1 sp He Hs Hc)) as Hat.
+    unfold probe. rewrite Hcur, Hi, Hc, Hat, Htk.
+    eexists. f_equal. cbn [map all_convs]. unfold probe_conv.
+    rewrite !(conventions_reach_replacement Z SELF CLS tk (prk sp) _ _ args Hcompat Hc). reflexivity.
   Qed.
 End Restore.
 
@@ -618,7 +770,7 @@ Proof. intros. split; reflexivity. Qed.
    mock of the second activation is a new object and all four conventions reach it; an
    attribute-refusing product of new_callable is refused with its own exception and nothing changes *)
 Example reactivation_example :
-  run_case [TMethod] [(0, RDefault, BRet)]
+  run_case [TMethod] [(0, RDefault, BRet, 0)]
            [OEnter 0 SDecor; OExit 0 SDecor false; OStart 0; OProbe 0 [7]; OStop 0 true]
   = ([RO RDone; RO RDone; RO RDone;
       RProbe (Some (ONew 0 1)) [CReached (ONew 0 1) [7] BRet; CReached (ONew 0 1) [7] BRet;
@@ -627,15 +779,51 @@ Example reactivation_example :
 Proof. reflexivity. Qed.
 
 Example refusal_example :
-  run_case [TModFn] [(0, RNcType, BRet); (0, RNcRaiser, BRet)] [OEnter 0 SWith; OStart 1; OStopAll false]
+  run_case [TModFn] [(0, RNcType, BRet, 0); (0, RNcRaiser, BRet, 1)] [OEnter 0 SWith; OStart 1; OStopAll false]
   = ([RO (RFail E_TYPE); RO (RFail E_RUNTIME); RO RDone], [Some (OOrig 0)], 0).
 Proof. reflexivity. Qed.
+
+(* ONE callable object given to two patches of two targets whose lifetimes overlap: while both are
+   active both slots hold the one object; after the inner patch ended the outer one still reaches
+   it by all four conventions (the hypotheses of survivor_reached are satisfiable).  The same with
+   one plain function: each patcher installs its own AsyncAndSyncPairDecorator (ONew 0 0 / ONew 1 0),
+   the code that runs is the shared function's (ONew 0 0). *)
+Example shared_example :
+  run_case [TModFn; TModFn] [(0, RCallableObj, BRet, 0); (1, RCallableObj, BRet, 0)]
+           [OEnter 0 SWith; OEnter 1 SWith; OProbe 1 [5]; OExit 1 SWith false; OProbe 0 [7]; OExit 0 SWith false]
+  = ([RO RDone; RO RDone;
+      RProbe (Some (ONew 0 0)) [CReached (ONew 0 0) [5] BRet; CReached (ONew 0 0) [5] BRet;
+                                CReached (ONew 0 0) [5] BRet; CReached (ONew 0 0) [5] BRet];
+      RO RDone;
+      RProbe (Some (ONew 0 0)) [CReached (ONew 0 0) [7] BRet; CReached (ONew 0 0) [7] BRet;
+                                CReached (ONew 0 0) [7] BRet; CReached (ONew 0 0) [7] BRet];
+      RO RDone], [Some (OOrig 0); Some (OOrig 1)], 0).
+Proof. reflexivity. Qed.
+
+Example shared_wrapped_example :
+  run_case [TModFn; TModFn] [(0, RFunc, BRet, 0); (1, RFunc, BRet, 0)]
+           [OStart 0; OStart 1; OProbe 1 [5]; OStop 1 false; OProbe 0 []; OStopAll false]
+  = ([RO RDone; RO RDone;
+      RProbe (Some (ONew 1 0)) [CReached (ONew 0 0) [5] BRet; CReached (ONew 0 0) [5] BRet;
+                                CReached (ONew 0 0) [5] BRet; CReached (ONew 0 0) [5] BRet];
+      RO RDone;
+      RProbe (Some (ONew 0 0)) [CReached (ONew 0 0) [] BRet; CReached (ONew 0 0) [] BRet;
+                                CReached (ONew 0 0) [] BRet; CReached (ONew 0 0) [] BRet];
+      RO RDone], [Some (OOrig 0); Some (OOrig 1)], 0).
+Proof. reflexivity. Qed.
+
+(* what a missing wrapper would look like (no reachable state has one, see survivor_reached): *)
+Example detached_example :
+  probe_conv IObj false ADirect (ONew 0 0) BRet CValue [1] = CDetached
+  /\ probe_conv IObj false ADirect (ONew 0 0) BRet CSync [1] = CReached (ONew 0 0) [1] BRet
+  /\ probe_conv IAsynq false ADirect (ONew 0 0) BRet CValue [1] = CReached (ONew 0 0) [1] BRet.
+Proof. repeat split. Qed.
 
 (* stopping in non-LIFO order is not well-bracketed, and indeed does not restore *)
 Example nonlifo_not_wb : wb [] [OStart 0; OStart 1; OStop 0 false; OStop 1 false] = false.
 Proof. reflexivity. Qed.
 Example nonlifo_not_restored :
-  snd (fst (run_case [TModFn] [(0, RFunc, BRet); (0, RBound, BRet)]
+  snd (fst (run_case [TModFn] [(0, RFunc, BRet, 0); (0, RBound, BRet, 1)]
                      [OStart 0; OStart 1; OStop 0 false; OStop 1 false])) = [Some (ONew 0 0)].
 Proof. reflexivity. Qed.
 
